@@ -131,7 +131,11 @@ class DynBaseRefDict(RefDict):
 
         assert isinstance(value, ReferenceImpl)
 
-        if isinstance(value.interface, Interface) and value.interface._is_valid():
+        if (isinstance(value.interface, Interface)
+                and value.interface._is_valid()
+                and value.interface._impl.model is self.owner.model):
+            # An object of another model is never inside the base space's tree,
+            # whatever its dotted name
 
             if value.is_relative:   # value.is_relative is set to True
                                     # When value.is_defined and
